@@ -7,11 +7,15 @@ pub mod corr;
 pub mod c02;
 pub mod c03;
 pub mod c04;
+pub mod c05;
+pub mod c06;
+pub mod tables;
 pub mod c10;
 pub mod c11;
 pub mod c13;
 pub mod c15;
 pub mod c17;
+pub mod c18;
 pub mod c19;
 pub mod c20;
 pub mod css_common;
@@ -22,11 +26,14 @@ pub fn get(id: &str) -> Option<Box<dyn Prop>> {
         "C02" => Some(Box::new(c02::C02)),
         "C03" => Some(Box::new(c03::C03)),
         "C04" => Some(Box::new(c04::C04)),
+        "C05" => Some(Box::new(c05::C05)),
+        "C06" => Some(Box::new(c06::C06)),
         "C10" => Some(Box::new(c10::C10)),
         "C11" => Some(Box::new(c11::C11)),
         "C13" => Some(Box::new(c13::C13)),
         "C15" => Some(Box::new(c15::C15)),
         "C17" => Some(Box::new(c17::C17)),
+        "C18" => Some(Box::new(c18::C18)),
         "C19" => Some(Box::new(c19::C19)),
         "C20" => Some(Box::new(c20::C20)),
         _ => None,
